@@ -7,7 +7,7 @@ Sub-check "sim"   one case = (simulator, product, simulation mode, maximum step,
                   every multiset of jump-time uniforms from {0.1, 0.5, 0.9} per interval is simulated (handed to the library
                   in DEcreasing order, so that the library's sort matters).  Fixed-date mode has no jump times: one case
                   simulates the batch of all count tuples {0,1,2}^n after ONE pre_computation (as the engines do), so that
-                  path p must use the p-th pre-drawn row.
+                  the paths of a batch must consume disjoint pre-drawn rows.
     simulators    LevyProcess on HEM / Merton / exp-HEM (real jump_increment, spied), MarkovChainProcess (HEM; CGMY y=1.2
                   whose diffusion coefficient carries the small-jump adjustment), MarkovChainLevyCopula (HEM x Merton,
                   Clayton, d=2), CouplingMarkovChain at level 1 and 2 (HEM; CGMY 1.2: fine and coarse coefficients differ),
@@ -82,7 +82,16 @@ def _n_intervals(prod):
     return {"asian-y1": 1, "asian-y2": 2, "asian-y3": 3, "asian-m2": 2, "asian-m3": 3}[prod]
 
 
+def _preload():
+    """import the library once in the parent so that the forked workers inherit it (about 5 s of imports otherwise)"""
+    import rpylib.process.coupling.couplinglevycopula  # noqa: F401
+    import rpylib.process.coupling.couplingmarkovchain  # noqa: F401
+    import rpylib.product.product  # noqa: F401
+    import rpylib.model.utils  # noqa: F401
+
+
 def cases(tier):
+    _preload()
     thorough = tier == "thorough"
     out = []
     # finer grid functions first (cheapest, simplest)
